@@ -7,7 +7,7 @@ NEEDS = {
 "C01C": ("Pipeline::append() silently drops a handler instance that is already in the pipeline", "the same handler instance at two positions of one pipeline (formatByQt() twice hands out the shared instance; one sink behind two formatters)"),
 "C01D": ("LogMessage::updateAttributes() merges the smaller hash into the larger one (precedence reversed when the incoming set is larger)", "two attribute handlers on one path setting the same key, the later one returning more entries than the message holds"),
 "C02C": ("re-entrancy guard in Logger::messageHandler that is one flag for all threads", "two producer threads whose calls overlap in messageHandler(): the second one's message is dropped / bypasses the lock"),
-"C02D": ("bounded wait (tryLock 1 s) for the logger mutex in processMessage, pipeline run without the lock on timeout", "two threads and a handler run longer than 1 s (or many threads into a slow sink)"),
+"C02D": ("bounded wait (tryLock 1 s) for the logger mutex in processMessage; on timeout the message is handed to the previously installed handler instead of the pipeline", "two threads and a handler run longer than 1 s (or many threads into a slow sink)"),
 "C03C": ("resetOwnThread() stops queueing (worker pointer cleared) before it drains", "a log call from another thread while resetOwnThread() sits in its drain loop: it overtakes queued messages on the caller's thread"),
 "C03D": ("fatal messages are delivered by the caller in asynchronous mode", "a QtFatalMsg message in asynchronous mode: sink code runs on the calling thread, concurrently with the worker"),
 "C04C": ("aboutToQuit hook connected once per handler (flag) instead of once per thread period", "moveToOwnThread, reset, event loop spin, moveToOwnThread again, quit with a backlog: the second period is never stopped"),
